@@ -3,7 +3,14 @@ import vlib, tabgen, sim_common as sc
 
 COQ_TARGETS = ["Props/Properties_C01.vo"]
 META = dict(
-    text="proof (partial): Coq theorems over a transition-system model of ICE role-conflict resolution (tie-breaker comparison of "
+    text="proof (partial): (a) the check-list kernel of agent/conncheck.c (unfreezing, choice of the next pair to check, READY / FAILED decisions, pruning after "
+         "nomination, nomination on USE-CANDIDATE) is modelled statement for statement in Coq and proved for ALL check lists: unfreezing only ever turns "
+         "FROZEN into WAITING and thaws exactly the first frozen pair of each foundation; the pair checked next is a WAITING pair of maximal priority; the "
+         "scheduler never stalls while a WAITING or FROZEN pair exists; READY is announced iff a valid nominated pair exists and no pair of at least the "
+         "selected priority is still in progress or queued; FAILED iff every pair of the component has finished and none is nominated; the two are mutually "
+         "exclusive and idempotent; pruning deletes exactly the lower-priority pending pairs of that component, never another component's, keeps the list "
+         "sorted; the model is tied to the real static functions on every run (harness/checklist_h.c includes conncheck.c, 5200 fabricated lists, compared "
+         "inside Coq). (b) Coq theorems over a transition-system model of ICE role-conflict resolution (tie-breaker comparison of "
          "conncheck_create_reply, 487 handling): for ANY pool of in-flight honest messages delivered in any order, any number of times, stale "
          "ones included, every role change moves the larger tie-breaker towards controlling / the smaller towards controlled; complementary "
          "roles are stable; one completed conflict exchange leaves exactly one controller; the selected pair only moves to strictly higher priority, ends as the best nominated pair and, with distinct priorities, independently of the order nominations arrived in (statement shape of conn_check_update_selected_pair checked in the source on every run). The decision function is tied to the real "
@@ -12,7 +19,7 @@ META = dict(
          "nomination mode x initial roles x tie-breakers x 1..3 addresses x 1..2 components x signalling orders x drop/dup/delay schedules with the "
          "end condition (both READY, mirrored pairs, one ICE-CONTROLLING on the wire), the check-list order and the state machine as oracles.",
     note="trusted: Coq kernel, the role model (tied by sampling), sim.c. Partial: convergence itself is counterexample search. ICE-TCP and reliable mode are not simulated.",
-    technique="Coq proof of role-resolution monotonicity over arbitrary message pools + differential tie + deterministic two-agent simulation")
+    technique="Coq proofs over executable models of the check-list kernel and of role-conflict resolution (arbitrary lists / message pools) + differential ties to the real functions evaluated inside Coq + deterministic two-agent simulation")
 FINISH = dict(level="proof", trusted=["coq/Agent/RoleModel.v tied to stun/usages/ice.c by differential execution evaluated inside Coq (vm_compute)",
                                       "harness/sim.c deterministic simulator over /repo's working tree (ASan+UBSan)", "python trace oracles (props/sim_common.py)"],
               rule="convergence scenarios: nomination regular/aggressive per side, roles (1,0),(0,1),(1,1),(0,0), random or fixed tie-breakers, 1..3 local addresses, "
@@ -90,6 +97,8 @@ def run(chk):
         chk.broken_obligation("translator/table-extractor", err)
     chk.prove(["Props/Properties_C01.v"])
     role_tie(chk)
+    import c01_checklist
+    c01_checklist.checklist_tie(chk)
     n = 1200 if chk.tier == "quick" else 60000
     cases = [sc.gen_convergence(chk.rng, i) for i in range(n)]
     sc.run_sim(chk, cases, oracle, "sim-C01")
